@@ -30,6 +30,7 @@ def run(ctx):
     rule_termination(ctx, repo, eng)
     rule_elements(ctx, repo)
     rule_error_state(ctx, repo)
+    common.rule_flag_defaults(ctx, repo, 'C07.F3', need_empty=False)
     # "the state captured in a raised evaluation error respects the interpreter's limits": every iteration that grows a
     # stack ends in the stack-size guard, so no later error can capture more than the limit (C06.L2's obligation)
     c06.rule_stack_limit_path(ctx, repo, it)
